@@ -221,10 +221,25 @@ def run(run):
                        "acknowledged STOREs without a later barrier are 'open' (may be absent, never duplicated/corrupted)",
                        "process crash = _exit(137) at the hook point (no unwinding, no user-space buffer flush) or SIGKILL; power loss / fsync ordering not modelled"]
     run.parallel(crash_task, tasks)
+    # a flush whose index update meets a compaction hand-over on the same shard (one side parked at a step point), then SIGKILL and
+    # restart: every acknowledged event is still there (the segment index is the only record of a flushed segment once its WAL is pruned)
+    from . import c11
+    otasks = []
+    for rep in range(1 if quick else 6):
+        for side, pts in (("flush", ["fr.before_index", "idx.tmp_written", "idx.renamed", "fr.index_added", "fl.verified", "fl.published"]),
+                          ("handover", ["ho.before_lock", "ho.locked", "ho.before_save", "ho.saved"])):
+            for pnt in pts:
+                otasks.append({"name": f"ov-{side}-{pnt}-{rep}", "seed": run.rng("ov", side, pnt, rep).getrandbits(40), "side": side, "point": pnt,
+                               "restart": "kill"})
+    run.parallel(c11.overlap_task, otasks)
 
 
 def replay(run, path):
     with open(path) as f:
         w = json.load(f)["witness"]
+    if w.get("mode") == "overlap":
+        from . import c11
+        run.parallel(c11.overlap_task, [{"name": "replay", "seed": w["seed"], "side": w["parked"][0], "point": w["parked"][1], "restart": w.get("restart", "kill")}], nproc=1)
+        return
     t = {"name": "replay", "tmpl": w["template"], "seed": w["seed"], "buffered": w["buffered"], "point": w["crash"]["point"], "nth": w["crash"]["nth"]}
     run.parallel(crash_task, [t], nproc=1)
